@@ -109,6 +109,8 @@ def build(rnd, rnd2=None):
                 # the multiplexer does not freeze its map: registers added after its construction are decoded too
                 mux = csr.Multiplexer(mm, shadow_overlaps=rnd2.choice([None, None, 2]))
             w = rnd.choice([1, cdw, cdw + 1, 2 * cdw, 3 * cdw])
+            if rnd2.random() < .08:
+                w = 0                      # a register without data bits (a strobe-only "doorbell") is still a leaf
             e = El(w, rnd.choice(["r", "w", "rw", "rw"]))
             try:
                 kw = {"addr": rnd.randrange(0, 1 << aw, 1 << mm.alignment)} if rnd.random() < .4 else {}
@@ -304,6 +306,41 @@ def run_impl(case):
                 stats["readbacks"] = stats.get("readbacks", 0) + 1
                 if got != [(want >> (k * cdw)) & gmask for k in range(n)]:
                     fails.append(("C01", f"{i.path} at {i.start}..{i.end}: wrote {want:#x} through the root, read back chunks {got}", i.start))
+        # ---- whole-word accesses: every lane selected at once (the bridge then walks all granules of the word,
+        # assigned or not); what lane k returns is what the map says lives at that granule
+        if ratio > 1:
+            words = sorted({i.start >> gb for i in regs})[:8]
+            for wadr in words:
+                for i in regs:
+                    el = i.resource.element
+                    if el.access.readable() and isinstance(i.resource, El):
+                        ctx.set(el.r_data, rnd2.getrandbits(el.width) if el.width else 0)
+                vals = {id(i.resource): (ctx.get(i.resource.element.r_data) if (i.resource.element.access.readable() and isinstance(i.resource, El)) else None) for i in regs}
+                ctx.set(bus.adr, wadr); ctx.set(bus.sel, (1 << ratio) - 1); ctx.set(bus.we, 0); ctx.set(bus.cyc, 1); ctx.set(bus.stb, 1)
+                got = None
+                for _ in range(ratio + 4):
+                    if ctx.get(bus.ack):
+                        got = ctx.get(bus.dat_r)
+                        break
+                    await ctx.tick()
+                ctx.set(bus.cyc, 0); ctx.set(bus.stb, 0)
+                await ctx.tick(); await ctx.tick()
+                stats["word_reads"] = stats.get("word_reads", 0) + 1
+                if got is None:
+                    continue
+                for lane in range(ratio):
+                    a = (wadr << gb) + lane
+                    o = owner[a] if a < naddr else None
+                    lane_v = (got >> (lane * cdw)) & gmask
+                    if o is None:
+                        if lane_v and any(s_ <= a < e_ for s_, e_ in bridge_windows):
+                            fails.append(("C01", f"word read at root word {wadr}: lane {lane} (unassigned root address {a}) returned {lane_v:#x}", a))
+                    elif hasattr(o.resource, "element") and isinstance(o.resource, El) and o.resource.element.access.readable() \
+                            and a == o.start and (o.end - o.start) == 1 and vals.get(id(o.resource)) is not None:
+                        want = vals[id(o.resource)] & gmask
+                        if lane_v != want:
+                            fails.append(("C01", f"word read at root word {wadr}: lane {lane} (root address {a}, {o.path}) returned {lane_v:#x}, "
+                                                 f"the register presents {want:#x}", a))
         # ---- block cycles: all chunks of a register written in consecutive transfers WITHOUT releasing cyc/stb
         # between them (the next transfer is presented in the cycle after the acknowledge)
         for i in [r for r in regs if r.resource.element.access.writable()][:6]:
